@@ -248,6 +248,41 @@ def eval_long(case):
     return OK(outcome=(w, centre, at, len(df), int(sum(got))), nontrivial=bool(((bf > 0) & (bf < 1)).any()), evals=nev)
 
 
+AMP_EP = [{'burst_fraction_threshold': .4, 'min_n_cycles': 2}, None, {'burst_fraction_threshold': 1, 'min_n_cycles': 1}, None,
+          {'burst_fraction_threshold': .75, 'min_n_cycles': 4}]
+
+
+def eval_epoch_list(case):
+    """compute_features_2d(axis=None, burst_method='amp') with one option dict per epoch, some WITHOUT thresholds: every epoch table is
+    labelled by the run rule with its own thresholds (the documented defaults 1 / 3 where none are given)."""
+    from bycycle.group import compute_features_2d
+    letters, (centre, E, rot) = case[:-1], case[-1]
+    sig = S.word_signal(''.join(letters))
+    if not precondition(sig, S.resolve(('trough',) if centre == 'trough' else ()))[0]:
+        return SKIP('precondition')
+    n_ep = len(sig) // E
+    kws, thr = [], []
+    for e in range(n_ep):
+        t = AMP_EP[(e + rot) % len(AMP_EP)]
+        k = {'center_extrema': centre, 'burst_method': 'amp', 'burst_kwargs': {'amp_threshes': (.5, 1.)}}
+        if t is not None:
+            k['threshold_kwargs'] = dict(t)
+        kws.append(k)
+        thr.append(t or {'burst_fraction_threshold': 1, 'min_n_cycles': 3})
+    dfs = compute_features_2d(sig.reshape(n_ep, E).copy(), 64, (6, 14), kws, axis=None)
+    nt = False
+    for e, df in enumerate(dfs):
+        bf = df['burst_fraction'].tolist()
+        exp = min_run_filter([v >= thr[e]['burst_fraction_threshold'] for v in bf], thr[e]['min_n_cycles'])
+        got = [bool(x) for x in df['is_burst']]
+        if got != exp:
+            return VIOL({'kind': 'amp', 'what': 'epoch-labels', 'centre': centre, 'own_thresholds': AMP_EP[(e + rot) % len(AMP_EP)] is not None},
+                        'epoch %d: labels are not the run rule with that epoch\'s thresholds %r' % (e, thr[e]), expected=exp,
+                        observed={'got': got, 'burst_fraction': bf}, evals=e + 1)
+        nt = nt or any(got)
+    return OK(outcome=(''.join(letters), centre, E, rot), nontrivial=nt, evals=len(dfs))
+
+
 def evaluate_full(case):
     return evaluate(case, FULL=True)
 
@@ -265,6 +300,9 @@ def spaces(tier, seed):
     Rs = [3, 40] + list(range(124, 132)) + list(range(252, 260)) + [511, 512, 513, 1023, 1024, 1025] + ([] if tier == 'quick' else list(range(96, 124)) + [2047, 2048, 4096])
     out.append(ProductSpace('many-runs', [Rs, [0, 1, 2, 4], [0., .4995]], eval_many_runs,
                             describe='synthetic burst_fraction columns with up to %d runs x 4 run-length patterns, through detect_bursts_amp' % Rs[-1]))
+    ep = [(c, E, r) for c in ('peak', 'trough') for E in (32, 16) for r in (0, 1, 3)]
+    out.append(ProductSpace('epoch-list-W(3,8)' if tier != 'quick' else 'epoch-list-W(2,8)', [['a', 'd', 'z'] if tier != 'quick' else ['a', 'z']] * 8 + [ep], eval_epoch_list,
+                            describe='per-epoch option lists (amp method, some entries without thresholds): labels of every epoch table'))
     from bcmc.explore import ListSpace
     out.append(ListSpace('long-recordings', [[w, (c, (.5, 1.))] for w in ('@A', '@B', '@D') for c in ('peak', 'trough')], eval_long,
                          describe='long real-valued recordings (660 / 1430 / 200 cycles, 200 samples per cycle) x centring: routes and region grid'))
